@@ -13,7 +13,8 @@
    READING  event [dir |-> "read", via, text, k ("val" | "err" | "soft"), code, b, wid]
      the text denotes dec exactly; the stored number b has type Len(b) \in {2, 4, 8}:
        type from the sigil, the exponent letter and the digit count  read_type
-       integer: b = dec exactly; float: |b - dec| < ulp(b)           read_error (read_error_long_mantissa)
+       integer: b = dec exactly; float: |b - dec| < ulp(b)           read_error (read_error_long_mantissa,
+                                                                     read_error_trailing_zeros)
        b = 0 only for dec = 0 or |dec| < 2^-128                      read_zero (read_zero_near_min)
        Overflow only when |dec| exceeds the largest number           read_overflow_spurious
      wid = TRUE: the number was observed after storing it in a double variable (exact
@@ -55,11 +56,14 @@ TypeSet(p, dec, hasBlank) ==
          THEN (IF hasBlank \/ p.signed THEN {2, 4} ELSE {2})
     ELSE {4}
 
-\* Does the stored number b (2, 4, 8 bytes) stand for dec?  mant = the mantissa digits of the text as an integer.
-\* Two classes get their own clause names (open findings, see notes/C07.md): a text whose mantissa integer does
-\* not fit the mantissa of the type exactly (error found up to 2.4 ulp, reported up to 3 ulp under this name), and
-\* a value less than 3 ulp above the smallest positive number that is flushed to zero.
-ValueOK(b, dec, mant) ==
+\* Does the stored number b (2, 4, 8 bytes) stand for dec?  mant = the mantissa digits of the text as an integer,
+\* mant0 = the same without the trailing zeros of the fraction part (which do not change the value).
+\* Three classes get their own clause names (open findings, see notes/C07.md), each only for an error below 3 ulp:
+\*   read_error_trailing_zeros   mant does not fit the mantissa of the type exactly, but mant0 does: the only
+\*                               reason for the inaccuracy are trailing zeros after the decimal point
+\*   read_error_long_mantissa    mant0 does not fit either (more significant digits than the type holds)
+\*   read_zero_near_min          a value less than 3 ulp above the smallest positive number is flushed to zero
+ValueOK(b, dec, mant, mant0) ==
     IF Len(b) = 2 THEN (IF ScEq(IntVal(b), dec) THEN "ok" ELSE "read_error")
     ELSE IF MbfIsZero(b) THEN
         IF ScIsZero(dec) \/ ScAbsLt(dec, MbfMinPos) THEN "ok"
@@ -67,8 +71,10 @@ ValueOK(b, dec, mant) ==
         ELSE "read_zero"
     ELSE LET diff == ScSub(MbfVal(b), dec)
              U == MbfUlp(b)
+             lim == Pow2(MbfWidth(b))
          IN  IF ScAbsLt(diff, U) THEN "ok"
-             ELSE IF ~Lt(mant, Pow2(MbfWidth(b))) /\ ScAbsLt(diff, ScMul(ScInt(3), U)) THEN "read_error_long_mantissa"
+             ELSE IF ~Lt(mant, lim) /\ ScAbsLt(diff, ScMul(ScInt(3), U))
+                  THEN (IF Lt(mant0, lim) THEN "read_error_trailing_zeros" ELSE "read_error_long_mantissa")
              ELSE "read_error"
 
 ReadV(e) ==
@@ -78,6 +84,10 @@ ReadV(e) ==
         p == ParseNum(t1)
         dec == NumVal(p)
         mant == FromDec(p.ds)
+        \* trailing zeros of the fraction part: at most nfrac of the trailing zero digits
+        tz == Len(p.ds) - LastNonZero(p.ds, Len(p.ds))
+        strip == IF tz < p.nfrac THEN tz ELSE p.nfrac
+        mant0 == FromDec(Front(p.ds, Len(p.ds) - strip))
         \* blanks inside the number (leading and trailing ones do not count)
         f == FirstIn(e.text, {c \in 0..255 : NotBlank(c)}, 1)
         inner == IF f = 0 THEN <<>> ELSE StripTrail(From(e.text, f))
@@ -95,15 +105,16 @@ ReadV(e) ==
             ELSE "ok"
         ELSE IF ~NumWellFormed(e.b) THEN "malformed_event"
         ELSE IF ~e.wid THEN
-            IF Len(e.b) \notin types THEN "read_type" ELSE ValueOK(e.b, dec, mant)
+            IF Len(e.b) \notin types THEN "read_type" ELSE ValueOK(e.b, dec, mant, mant0)
         ELSE
             \* observed as a double: judge every type the text may have, report the most favourable verdict
             IF Len(e.b) # 8 THEN "malformed_event"
-            ELSE LET v8 == IF 8 \in types THEN ValueOK(e.b, dec, mant) ELSE "none"
-                     v4 == IF 4 \in types /\ DoubleIsSingle(e.b) THEN ValueOK(From(e.b, 5), dec, mant) ELSE "none"
+            ELSE LET v8 == IF 8 \in types THEN ValueOK(e.b, dec, mant, mant0) ELSE "none"
+                     v4 == IF 4 \in types /\ DoubleIsSingle(e.b) THEN ValueOK(From(e.b, 5), dec, mant, mant0) ELSE "none"
                      v2 == IF 2 \in types /\ ScEq(MbfVal(e.b), dec) THEN "ok" ELSE "none"
                      vs == {v8, v4, v2}
                  IN  IF "ok" \in vs THEN "ok"
+                     ELSE IF "read_error_trailing_zeros" \in vs THEN "read_error_trailing_zeros"
                      ELSE IF "read_error_long_mantissa" \in vs THEN "read_error_long_mantissa"
                      ELSE IF "read_zero_near_min" \in vs THEN "read_zero_near_min"
                      ELSE IF v4 # "none" THEN v4
